@@ -445,9 +445,10 @@ where
         Statement::If(x) => {
             let condition = walk_rvalue(ctx, locals, x.condition, source, visitor, diagnostics)?;
             let condition_label = visitor.mark_branch_point();
+            // branch may be a declaration without braces, which shouldn't leak to outer scope
             walk_stmt(
                 ctx,
-                locals,
+                &mut locals.clone(),
                 break_label,
                 x.consequence,
                 source,
@@ -456,7 +457,8 @@ where
             )?;
             let consequence_label = visitor.mark_branch_point();
             let alternative_label = if let Some(n) = x.alternative {
-                walk_stmt(ctx, locals, break_label, n, source, visitor, diagnostics)?;
+                let mut locals = locals.clone();
+                walk_stmt(ctx, &mut locals, break_label, n, source, visitor, diagnostics)?;
                 Some(visitor.mark_branch_point())
             } else {
                 None
